@@ -108,6 +108,12 @@ func NewPrivateKeyFromXML(xmlInput string, demo bool) (*PrivateKey, error) {
 
 	privk.N = new(big.Int).Mul(privk.P, privk.Q)
 	privk.Order = new(big.Int).Mul(privk.PPrime, privk.QPrime)
+	if !demo {
+		// as for public keys: only moduli of a supported length
+		if _, ok := DefaultSystemParameters[privk.N.BitLen()]; !ok {
+			return nil, fmt.Errorf("unknown keylength %d", privk.N.BitLen())
+		}
+	}
 	if err := privk.parseRevocationKey(); err != nil {
 		return nil, err
 	}
